@@ -26,7 +26,7 @@ for _np, _tiers in ((1, ('quick', 'thorough')), (2, ('quick', 'thorough')), (3, 
       assumptions=['undefined value is TEST=1.234e30 (FFFF(x) is x > 1e30 in the NaN-free reading)'])
 
 for _nv, _tiers in ((3, ('quick', 'thorough')), (4, ('quick', 'thorough')), (5, ('thorough',)), (6, ('thorough',))):
-    K('C20.b.%d' % _nv, property='C20', engine='symex', harness='C20/open.cpp', entry='k_open_polygon', tus=_C20PTUS,
+    K('C20.b.%d' % _nv, property='C20', engine='symex', harness='C20/open.cpp', entries=['k_open_polygon', 'k_close_rules'], tus=_C20PTUS,
       defines={'all': {'VF_NV': _nv}}, tiers=_tiers,
       bounds={'quick': 'one polygon element given open with %d grid vertices (|v|<=2^20, arbitrary, first != last), grid query point off the boundary' % _nv},
       timeout_ms={'quick': 240000, 'thorough': 1800000}, validate={'quick': 40, 'thorough': 100}, validate_doubles='int',
